@@ -214,6 +214,17 @@ def gen(args) -> list:
             except Exception as e:  # noqa: BLE001
                 ev["exc"] = type(e).__name__
             evs.append(ev)
+        elif c < 0.985:
+            # any timedelta within a day or so -> Offset: fractional seconds truncated toward zero, +-18 h checked exactly
+            base = rnd.choice([0, 64800, -64800, 1, -1, 3600, -5400, rnd.randint(-64800, 64800), rnd.randint(-90000, 90000)])
+            us = rnd.choice([0, 1, -1, 500000, -500000, 999999, -999999, rnd.randint(-999999, 999999)])
+            td = dt.timedelta(seconds=base, microseconds=us)
+            ev = {"op": "td_off", "td": _td(td)}
+            try:
+                ev["res"] = Offset.from_timedelta(td).seconds
+            except Exception as e:  # noqa: BLE001
+                ev["exc"] = type(e).__name__
+            evs.append(ev)
         else:
             s = rnd.choice([0, 64800, -64800, -1, 1, rnd.randint(-64800, 64800)])
             ev = {"op": "off_td", "s": s}
